@@ -427,7 +427,8 @@ func genBlock(t *kit.Tape, o Opts, sh shape, nextID *int64, big bool) genned {
 					m.Bytes(2, PackedU(ks))
 					m.Bytes(3, PackedU(vs))
 				}
-				if sh.wayHas {
+				// most ways of a block look alike, one in four deviates: stale per-element state shows between neighbours
+				if sh.wayHas != t.Chance(1, 4) {
 					inf := &W{}
 					if sh.wayInfo[0] {
 						v := t.Draw(9)
@@ -466,6 +467,7 @@ func genBlock(t *kit.Tape, o Opts, sh shape, nextID *int64, big bool) genned {
 					m.Bytes(4, inf.B)
 				}
 				nr := t.Draw(5)
+				wayLoc := sh.wayLoc != t.Chance(1, 4)
 				var refs, la, lo []int64
 				var pr, pla, plo int64
 				for k := 0; k < nr; k++ {
@@ -473,7 +475,7 @@ func genBlock(t *kit.Tape, o Opts, sh shape, nextID *int64, big bool) genned {
 					refs = append(refs, r-pr)
 					pr = r
 					wn := osm.WayNode{ID: osm.NodeID(r)}
-					if sh.wayLoc {
+					if wayLoc {
 						rlat, rlon := t.Int64(2000)-1000, t.Int64(2000)-1000
 						la = append(la, rlat-pla)
 						pla = rlat
@@ -486,7 +488,7 @@ func genBlock(t *kit.Tape, o Opts, sh shape, nextID *int64, big bool) genned {
 				}
 				if nr > 0 || t.Bool() {
 					m.Bytes(8, PackedS(refs))
-					if sh.wayLoc {
+					if wayLoc {
 						m.Bytes(9, PackedS(la))
 						m.Bytes(10, PackedS(lo))
 					}
@@ -518,7 +520,7 @@ func genBlock(t *kit.Tape, o Opts, sh shape, nextID *int64, big bool) genned {
 					m.Bytes(2, PackedU(ks))
 					m.Bytes(3, PackedU(vs))
 				}
-				if sh.relHas {
+				if sh.relHas != t.Chance(1, 4) {
 					inf := &W{}
 					if sh.relInfo[0] {
 						v := t.Draw(9)
